@@ -14,6 +14,7 @@ DRIVER = 'harness/tripwire_drv.cpp'
 EXTRACT = 'Extract/TripWireExtract.v'
 ML = 'tripwire_model'
 SANITIZE = True   # memory safety (moved-from destructor, at(index)) is part of C19
+ENUM = True
 
 COUNT = 3
 MK_E, MK_D, MK_I, MOVE_C, MOVE_A, DESTROY, DET_E, DET_D, DET_I, IS_TRIPPED, WRITE, READ, POLL_READ = range(13)
